@@ -1641,18 +1641,13 @@ namespace igris
         template <typename... Args>
         iterator emplace(const_iterator pos, Args &&... args)
         {
-            // TODO insert optimization
             size_t _pos = pos - m_data;
-
-            reserve(m_size + 1);
-            m_size++;
-
-            iterator first = m_data + _pos;
-            iterator last = igris::prev((iterator)end());
-            igris::move_backward(first, last, end());
-            new (first) T(igris::forward<Args>(args)...);
-
-            return first;
+            // built before anything moves: the arguments may refer to an
+            // element of this vector
+            T value(igris::forward<Args>(args)...);
+            size_t oldsize = open_gap(_pos, 1);
+            fill_gap(_pos, oldsize, igris::move(value));
+            return m_data + _pos;
         }
 
         iterator insert(const_iterator pos, const T &value)
